@@ -50,7 +50,47 @@ def check(prog: Program, tier: str) -> Result:
     _roles(prog, res)
     _nested(prog, res)
     _tolerances(prog, res)
+    _search_state(prog, res)
     return res
+
+
+def _search_state(prog: Program, res: Result):
+    """R05.6: the nested searches (bi-rectangle, bi-zoned, constrained) construct the base search with their FIRST candidate
+    list and then replace self.coordinates_domain / self.fieldDescriptors for every further list.  Whatever the base
+    constructor computes from the list it is given (an iteration budget, a cached length, a bracket end ...) is stale for
+    the later lists unless the method that swaps the list recomputes it: the bisection then stops early or probes the
+    wrong end, and the candidate before the selected one is never evaluated."""
+    from ..derived import constructor_dependencies, derived_closure, stale_derived
+    from ..model import walk_no_nested
+
+    n_cls = 0
+    for cq in (f"{SR}.Bisection1D", f"{SR}.RowWiseModifiedBisectionSearch"):
+        cinfo = prog.cls(cq)
+        init = prog.method(cq, "__init__")
+        defs, alias = constructor_dependencies(init.node)
+        swapped = set()
+        for c in [cinfo] + prog.subclasses(cq):
+            for mname, m in c.methods.items():
+                if mname == "__init__":
+                    continue
+                for s_ in walk_no_nested(m.node):
+                    if isinstance(s_, ast.Assign):
+                        for t in s_.targets:
+                            ch = attr_chain(t)
+                            if ch and ch.startswith("self.") and ch.count(".") == 1:
+                                swapped.add(ch)
+        n_cls += 1
+        n_links, bad = stale_derived(prog, cq)
+        # only derivations from attributes that some method really replaces matter; 'self.ghe' is rebuilt per evaluation by initialize_ghe
+        bad = [b for b in bad if b[4] != "self.ghe"]
+        res.ob("R05.6", f"{cinfo.name}: nothing the constructor computes from a stored parameter goes stale when a method replaces that parameter's attribute "
+                        f"({len(defs)} derived attribute(s), {len(swapped & set(alias.values()))} replaceable source(s))", not bad, f"{cinfo.module.replace('.', '/')}.py:{cinfo.node.lineno}")
+        for c, m, st_, y, x, how, dstmt in bad[:4]:
+            res.violation("R05.6", f"stale|{c.name}.{m.name}|{y}|{x}", prog.loc(m, st_), m.qualname,
+                          f"{c.name}.{m.name}() replaces {y}, but {x} - which the constructor computed from it ({norm_stmt(dstmt)[:100]}) - {how}: "
+                          "for every list after the first the search runs with a value that belongs to another list")
+    if n_cls < 2:
+        raise AnalysisError("search classes not found")
 
 
 def _live_object(prog: Program, res: Result):
@@ -248,6 +288,37 @@ def _roles(prog: Program, res: Result):
             res.violation("R05.2", "step-evaluation", prog.loc(fi, ev[0].node), Q, "the bisection step does not evaluate the midpoint field at max_height")
         csign = sym.call("sign", [ev[0].data[3]])
         same = f.sign_of(csign - S)
+        if same != frozenset("0") and "0" in same:
+            # the step compared something else with the reference sign: it is still a bisection on the excess only if that
+            # something is -1 for a negative and +1 for a positive excess (however it is written)
+            from ..paths import make_cmp as _mc
+            from .hybrid_common import resolve_ite
+
+            E = ev[0].data[3]
+            cands = [c_ for c_ in ast.walk(loop) if isinstance(c_, ast.Compare) and len(c_.ops) == 1 and isinstance(c_.ops[0], (ast.Eq, ast.NotEq))
+                     and any(isinstance(x, ast.Name) and x.id == bn["ref_sign"] for x in (c_.left, c_.comparators[0]))]
+            if len(cands) != 1:
+                raise AnalysisError(f"{Q}: a bisection step does not compare the midpoint's sign with the reference sign")
+            other = cands[0].comparators[0] if isinstance(cands[0].left, ast.Name) and cands[0].left.id == bn["ref_sign"] else cands[0].left
+            xv = e2.eval(other, f)
+            faithful = isinstance(xv, Rat)
+            shown = vkey(xv)[:100]
+            if faithful:
+                for op_, const_ in ((">", 1), ("<", -1)):
+                    g = f.fork()
+                    if not g.assume(_mc(E, op_, Rat.const(0)), True):
+                        continue
+                    v_ = resolve_ite(xv, g)
+                    if not (v_.equals(Rat.const(const_)) or v_.equals(csign)):
+                        faithful = False
+                        shown = f"{vkey(v_)[:90]} when the excess is {'positive' if const_ > 0 else 'negative'}"
+            res.ob("R05.2", "the step compares the SIGN OF THE EVALUATED EXCESS with the reference sign", faithful, prog.loc(fi, cands[0]))
+            if not faithful:
+                res.violation("R05.2", f"step-sign|{vkey(xv)[:60]}", prog.loc(fi, cands[0]), Q,
+                              f"the bisection step compares {shown} with the reference sign instead of the sign of the excess it evaluated: a candidate that misses the limits can be taken as meeting them (or the reverse), "
+                              "while the final pick still requires excess < 0 - candidates between the bracket ends are then never evaluated")
+                continue
+            same = f.sign_of(xv - S)
         nl, nr = f.env.get(bn["left"]), f.env.get(bn["right"])
         if same == frozenset("0"):
             okr = isinstance(nl, Rat) and nl.equals(c) and isinstance(nr, Rat) and nr.equals(R)
@@ -434,6 +505,14 @@ _TAIL = """        keys = list(self.calculated_temperatures.keys())
 """
 
 VARIANTS = [
+    Variant("midpoint counted as feasible when its excess is within 0.01 K of the limit (seeded C05_e)", "break",
+            [(SR, "            c_sign = sign(c_t_excess)\n", "            c_sign = sign(c_t_excess) if abs(c_t_excess) > 1.0e-2 else -1\n")], "R05.2"),
+    Variant("midpoint sign written as a conditional expression on the excess", "benign",
+            [(SR, "            c_sign = sign(c_t_excess)\n", "            c_sign = -1 if c_t_excess < 0 else 1\n")]),
+    Variant("iteration budget derived in the constructor from the first candidate list (seeded C05_f)", "break",
+            [(SR, "        self.fieldDescriptors = field_descriptors\n        self.max_iter = max_iter\n", "        self.fieldDescriptors = field_descriptors\n        self.max_iter = min(max_iter, max(1, ceil(sqrt(len(coordinates_domain)))))\n")], "R05.6"),
+    Variant("constructor caches the length of the candidate list it is given", "break",
+            [(SR, "        self.fieldDescriptors = field_descriptors\n        self.max_iter = max_iter\n", "        self.fieldDescriptors = field_descriptors\n        self.max_iter = max_iter\n        self.n_candidates = len(coordinates_domain)\n")], "R05.6"),
     Variant("sizing objective always simulates with the hybrid time step (seeded C05_d)", "break",
             [(GHX, "            self.bhe.b.H = h\n            max_hp_eft, min_hp_eft = self.simulate(method=method)", "            self.bhe.b.H = h\n            max_hp_eft, min_hp_eft = self.simulate(method=TimestepType.HYBRID)")], "R05.4"),
     Variant("final pick rewritten as arg-max of the excess among feasible candidates", "break",
